@@ -42,6 +42,12 @@ def run(ctx: Context) -> None:
     _share(ctx, _c08, {'R08.1', 'R08.2', 'R08.7'}, 'R09.8')
     from .common import adopt_foundations as _adopt
     _adopt(ctx, 'R09.9', ['masks', 'topology'], floor=60)
+    ctx.rule('R09.12', "update_connectivity refuses a table only when it does not have the primary dimension at all (a table stored the other way round is transposed, not refused)", floor=1)
+    with ctx.section('R09.12'):
+        from . import infra as _infra912
+        _infra912.refuses_only_when(ctx, 'R09.12', 'emsarray.conventions.ugrid.update_connectivity', 'does not contain primary dimension',
+                                    [('primary_dimension in connectivity.dims', False), ('primary_dimension not in connectivity.dims', True)],
+                                    "a connectivity table is refused only when the primary dimension is not one of its dimensions")
     ctx.rule('R09.11', "stored bounds are what the polygons of a clipped grid dataset are made of: the bounds reader uses them whenever they have the expected dimensions, "
              "including when they are nan outside the selection (facts shared with C06 R06.3 / R06.4)", floor=14)
     from . import c06 as _c06
@@ -386,6 +392,22 @@ def run(ctx: Context) -> None:
         m = Matcher(ctx, dl)
         loop = m.stmt('for $key, $sample in $sample_dataset.variables.items():\n    ...')
         ctx.need('R09.10', loop is not None and m.stmt('$new = $like.variables[$key]', within=loop) is not None, "dataset_like copies attributes variable by variable", dl)
+        # the rebuilt dataset holds every variable of the example, data variables and coordinates alike, each taken from the new dataset under its own name
+        mk = [c for c in calls_in(dl) if callee(ctx, dl, c) == 'xarray.Dataset']
+        ctx.need('R09.10', len(mk) == 1, "dataset_like builds one dataset", dl)
+        for kw_, member in (('data_vars', 'data_vars'), ('coords', 'coords')):
+            v_ = kwarg(mk[0], kw_)
+            v_ = dflow.resolve(v_) if v_ is not None else None
+            ok_ = False
+            how_ = 'absent'
+            if isinstance(v_, ast.DictComp) and len(v_.generators) == 1 and not v_.generators[0].ifs:
+                g_ = v_.generators[0]
+                k_ = norm_text(g_.target)
+                it_ = norm_text(dflow.resolve(g_.iter))
+                ok_ = norm_text(v_.key) == k_ and norm_text(v_.value) == f"{dl.params[1]}[{k_}]" and it_ in (f"{dl.params[0]}.{member}.keys()", f"{dl.params[0]}.{member}")
+                how_ = norm_text(v_)[:90]
+            ctx.check('R09.10', ok_, f"the rebuilt dataset has every one of the example's {member}, in the example's order, each read from the new dataset under its own name", dl, mk[0],
+                      construct=f"{kw_} = {how_}")
         from .common import Undecided, item_outcome, simple_aliases
         import itertools
         new_, sample_ = m.name('new'), m.name('sample')
